@@ -16,7 +16,7 @@ RULE = ("Hypothesis draws n in 1..12 (tiny on purpose), alpha in 0.3..2.0, n_est
         "ids must have been drawn whenever a correct uniform sampler would miss one with probability < 1e-12 "
         "(n*((n-1)/n)^draws); otherwise that sub-clause is skipped and the case is trivial for it. Aggregation clause also runs "
         "with LinearRegression / DecisionTreeRegressor bases. Non-trivial: n>=2 and eligibility applied, or weights present. "
-        "Distinct = distinct case JSON.")
+        "The query batch comes as float64, float32, int64 or int32. Distinct = distinct case JSON.")
 ASSUMPTIONS = ["round(alpha*n) is floor(alpha*n+1/2); at an exact .5 the round-half-even value is accepted as well",
                "statistical statement 'every row eligible' is checked through a deterministic consequence with miss probability < 1e-12"]
 TOLERANCES = {"predict==mean": "1e-12 relative", "min<=predict<=max": "1e-12 relative"}
@@ -93,11 +93,17 @@ def check_aggregate(case):
     np.random.seed(case["seed"])
     model.fit(X, y, w) if w is not None else model.fit(X, y)
     Q = np.array(case["Q"], dtype=np.float64).reshape(-1, case["d"])
+    qd = case.get("qdtype", "float64")
+    if qd != "float64":
+        # queries that are not float64 arrays (integer features, a float32 pipeline): the aggregate is still made of what each model answers
+        Q = (np.round(Q) if qd.startswith("int") else Q).astype(qd)
+    facts["qdtype"] = qd
     Q0 = Q.copy()
     pa = model.predict_all(Q)
     require(pa.shape == (len(Q), ne), "predict_all:shape", "%r" % (pa.shape,), facts)
     for i, e in enumerate(model.estimators_):
-        require(np.array_equal(pa[:, i], e.predict(Q)), "predict_all:column", "column %d is not model %d's prediction" % (i, i), facts)
+        own = np.asarray(e.predict(Q))
+        require(np.array_equal(pa[:, i], own), "predict_all:column", "column %d is not model %d's prediction: %r vs %r" % (i, i, pa[:, i].tolist()[:3], own.tolist()[:3]), facts)
     p = model.predict(Q)
     scale = 1.0 + np.abs(pa).max() if pa.size else 1.0
     require(p.shape == (len(Q),), "predict:shape", "%r" % (p.shape,), facts)
@@ -120,7 +126,7 @@ def check_aggregate(case):
             "after set_params(n_estimators=%d) without refit, predict is no longer the mean of the %d fitted models' predictions" % (
                 case.get("other_n_estimators", ne + 3), ne), facts)
     return Outcome([case["base"], "n_jobs=%s" % case["n_jobs"], "weights" if w is not None else "no-weights",
-                    "ne=1" if ne == 1 else "ne>1"], ne >= 2 and len(Q) >= 2)
+                    "ne=1" if ne == 1 else "ne>1", "query:" + qd], ne >= 2 and len(Q) >= 2)
 
 
 @st.composite
@@ -143,7 +149,8 @@ def _agg_cases(draw, tier="quick"):
     Q = draw(st.lists(st.lists(st.integers(-40, 40).map(lambda k: k / 4.0), min_size=d, max_size=d), min_size=q, max_size=q))
     noise = draw(st.lists(st.integers(-8, 8).map(lambda k: k / 8.0), min_size=12, max_size=12))
     return dict(n=n, d=d, alpha=alpha, n_estimators=draw(st.integers(1, 12)), other_n_estimators=draw(st.integers(1, 24)), weights=draw(st.booleans()), base=base,
-                n_jobs=draw(st.sampled_from([None, 1, 2])), seed=draw(st.integers(0, 2**31 - 1)), Q=Q, noise=noise)
+                n_jobs=draw(st.sampled_from([None, 1, 2])), seed=draw(st.integers(0, 2**31 - 1)), Q=Q, noise=noise,
+                qdtype=draw(st.sampled_from(["float64", "float64", "float32", "int64", "int32"])))
 
 
 CLAUSES = [
